@@ -30,4 +30,12 @@ InSteps(T, J, delta) == delta = 1 \/ (delta >= 2 /\ (delta - 1 + J) % T = 0)
 
 \* the step following step s
 NextStep(T, J, s) == IF s = 1 THEN ((J \div T) + 1) * T + 1 - J ELSE s + T
+
+\* ---- the discrete time model of src/time.rs --------------------------------
+\* an offset A names the instant A; the half-open interval [0, A) has length A, the closed interval [0, A] length A + 1
+FromTimeZero(d) == d                    \* Offset::from_time_zero:        [0, A) has length d  <=>  A = d
+SinceTimeZero(o) == o                   \* Offset::since_time_zero
+ClosedFromTimeZero(d) == d - 1          \* Offset::closed_from_time_zero: [0, A] has length d  <=>  A = d - 1   (d >= 1)
+ClosedSinceTimeZero(o) == o + 1         \* Offset::closed_since_time_zero
+SatSub(a, b) == IF a >= b THEN a - b ELSE 0
 =============================================================================
